@@ -160,6 +160,8 @@ func reflectName(t types.Type) string {
 		return "interface {}"
 	}
 	s = strings.ReplaceAll(s, "]any", "]interface {}")
+	s = wordReplace(s, "byte", "uint8")
+	s = wordReplace(s, "rune", "int32")
 	return s
 }
 
@@ -244,4 +246,33 @@ func show(v Value) string {
 		return fmt.Sprintf("symstr[%d]", len(x.B))
 	}
 	return fmt.Sprintf("%v", v)
+}
+
+func isIdentByte(c byte) bool {
+	return c == '_' || c == '.' || (c >= '0' && c <= '9') || (c >= 'a' && c <= 'z') || (c >= 'A' && c <= 'Z')
+}
+
+// wordReplace replaces whole-word occurrences of old (not part of an identifier).
+func wordReplace(s, old, new string) string {
+	var sb strings.Builder
+	i := 0
+	for i < len(s) {
+		j := strings.Index(s[i:], old)
+		if j < 0 {
+			break
+		}
+		j += i
+		end := j + len(old)
+		before := j == 0 || !isIdentByte(s[j-1])
+		after := end == len(s) || !isIdentByte(s[end])
+		sb.WriteString(s[i:j])
+		if before && after {
+			sb.WriteString(new)
+		} else {
+			sb.WriteString(old)
+		}
+		i = end
+	}
+	sb.WriteString(s[i:])
+	return sb.String()
 }
